@@ -10,7 +10,7 @@ SPEC = {
     "id": "C15",
     "level": "exploration",
     "design_ref": "DESIGN.md section 5, C15",
-    "rule": ("MinGenSet: cases = every non-empty subset of {1..N} of size <= S x every total in max..sum; inside: weight_type x max_multiplicity in {1,2,3} x "
+    "rule": ("MinGenSet: cases = every non-empty subset of {1..N} of size <= S x every total in 1..sum (totals below the largest number only with max_multiplicity > 1); inside: weight_type x max_multiplicity in {1,2,3,4} x "
              "lowerbound in {1, min(2, optimum)} x remove_complement_values x remove_sums_of_two x partition constraints (every split of the total into 2 parts "
              "drawn from sums of the numbers); oracle: enumerate multisets (partitions of the total into k positive parts) and test every number as a bounded-"
              "multiplicity sub-multiset sum. MinSetCover: every universe of <= U elements x every family of <= M non-empty subsets x weights in {1,2,3}^m "
@@ -22,8 +22,8 @@ SPEC = {
 
 def bounds(tier):
     if tier == "quick":
-        return {"numbers": "subsets of {1..6} of size<=3", "max_multiplicity": [1, 2, 3], "setcover": "universe<=3, families<=3 subsets, weights {1,2,3}"}
-    return {"numbers": "subsets of {1..8} of size<=4", "max_multiplicity": [1, 2, 3], "setcover": "universe<=4, families<=4 subsets, weights {1,2,3}"}
+        return {"numbers": "subsets of {1..6} of size<=3", "max_multiplicity": [1, 2, 3, 4], "setcover": "universe<=3, families<=3 subsets, weights {1,2,3}"}
+    return {"numbers": "subsets of {1..8} of size<=4", "max_multiplicity": [1, 2, 3, 4], "setcover": "universe<=4, families<=4 subsets, weights {1,2,3}"}
 
 
 def cases(tier, seed):
@@ -31,7 +31,9 @@ def cases(tier, seed):
     N, S = (6, 3) if q else (8, 4)
     for size in range(1, S + 1):
         for nums in itertools.combinations(range(1, N + 1), size):
-            tots = list(range(max(nums), sum(nums) + 1))
+            # totals below max(nums) are in the domain when max_multiplicity > 1 (MinFlowDecompCycles passes cycle flow values
+            # larger than the source flow); the oracle simply finds no generating set when none exists
+            tots = list(range(1, sum(nums) + 1))
             for i in range(0, len(tots), 4):
                 yield {"part": "mgs", "numbers": list(nums), "totals": tots[i:i + 4]}
     U, M = (3, 3) if q else (4, 4)
@@ -106,7 +108,9 @@ def run(case):
     if case["part"] == "mgs":
         nums = case["numbers"]
         for total in case["totals"]:
-            for m in (1, 2, 3):
+            for m in (1, 2, 3, 4):
+                if total < max(nums) and m == 1:
+                    continue
                 k, g = oracle_int(nums, total, m)
                 if k is None:
                     continue
